@@ -137,6 +137,12 @@ class P:
         return _PNumeral(lo, hi)
 
     @staticmethod
+    def sampled(inner, sampler):
+        """`inner` for the proof (symbolic value, counter-model concretisation), `sampler(rng) -> value` for the bounded native
+        runs: lets the stand-in draw values that satisfy a structural precondition instead of being skipped"""
+        return _PSampled(inner, sampler)
+
+    @staticmethod
     def casing(text):
         """every letter-casing of `text` (each cased character independently upper or lower)"""
         return _PCasing(text)
@@ -331,6 +337,20 @@ class _PStr(P):
                 ch = ch.lower()
             out.append(ch)
         return repr("".join(out))
+
+
+class _PSampled(P):
+    def __init__(self, inner, sampler):
+        self.inner, self.sampler = inner, sampler
+
+    def make(self, name):
+        return self.inner.make(name)
+
+    def concretize(self, value, model):
+        return self.inner.concretize(value, model)
+
+    def sample(self, rng):
+        return repr(self.sampler(rng))
 
 
 class _PNumeral(P):
